@@ -83,6 +83,11 @@ var addCmd = &cobra.Command{
 				if !isEntryFound {
 					return fmt.Errorf(`path "%s" did not match any files`, arg)
 				}
+				// a spelling that leads through something that is not a directory ("file/", "file/.", "nodir/../file")
+				// names nothing: the file it cleans to is still there and must not be taken for a deleted one
+				if _, err := os.Stat(cleanedArg); err == nil {
+					return fmt.Errorf(`path "%s" did not match any files`, arg)
+				}
 			}
 		}
 
